@@ -12,7 +12,7 @@ from aiomysensors.model.node import Child, Node
 from .. import core, pers
 from ..harness import canon_nodes
 
-REPLACEMENTS = ["null", "true", "0", "-1", "3.5", "1e400", '""', '"x"', "[]", "[1]", "{}", '{"a": 1}', '"1"', "256", "101"]
+REPLACEMENTS = ["null", "true", "0", "-1", "3.5", "1e400", '""', '"x"', "[]", "[1]", "{}", '{"a": 1}', '"1"', "256", "101", "255", "254", "100", '"255"']
 
 
 def native_doc() -> bytes:
@@ -101,6 +101,42 @@ def check_content(content: bytes | None, label: str, fail: dict | None = None) -
     excn = type(val).__name__ if kind == "raise" else kind
     shape = label.split(":")[0]
     return [(f"C14|foreign-exception:{excn}|{shape}", f"load of {label} ({(content or b'')[:80]!r}) gave {excn}: {str(val)[:160]}", rep)]
+
+
+def load_histories() -> list:
+    """Sequences of loads by ONE Persistence object into ONE registry (which may already hold nodes):
+    each load must succeed or raise PersistenceReadError, whatever was loaded before."""
+    from aiomysensors.persistence import Persistence
+
+    from .. import fsshim
+
+    viols = []
+    docs = {
+        "A": native_doc(),
+        "B": json.dumps({"1": json.loads(native_doc())["1"]}).encode(),
+        "C": json.dumps(LEGACY).encode(),
+        "E": b"",
+        "O": b"{}",
+        "M": b'{"1": {"node_id": 1}}',
+        "X": b"\xff{",
+    }
+    n = 0
+    for pre in ({}, {1: Node(1, 18, "1.4", children={9: Child(9, 1)})}, {2: Node(2, 17, "2.0"), 77: Node(77, 17, "2.0")}):
+        for seq in itertools.product(sorted(docs), repeat=3):
+            n += 1
+            nodes = copy.deepcopy(pre)
+            p = Persistence(nodes, pers.PATH)
+            for i, name in enumerate(seq):
+                vfs = fsshim.VFS()
+                vfs.files[pers.PATH] = bytearray(docs[name])
+                kind, val = pers.run(p.load, vfs)
+                if kind == "ok" or (kind == "raise" and isinstance(val, PersistenceReadError)):
+                    continue
+                excn = type(val).__name__ if kind == "raise" else kind
+                viols.append((f"C14|history-foreign-exception:{excn}", f"registry initially {sorted(pre)}, loads {list(seq[: i + 1])} by one Persistence object: load #{i} gave {excn}: {str(val)[:160]}",
+                              {"label": "history", "content_hex": None, "fail": None, "pre": sorted(pre), "seq": list(seq[: i + 1])}))
+                break
+    return n, viols
 
 
 def grammar(quick: bool) -> list:
@@ -198,14 +234,17 @@ def run(ctx: core.Ctx) -> core.Report:
     res = core.pmap(job, chunks, ctx.workers, chunksize=1)
     viols = [core.Violation(k, w, rep) for r in res for k, w, rep in r[1]]
     viols += [core.Violation(k, w, rep) for k, w, rep in special_cases()]
+    nh, hv = load_histories()
+    viols += [core.Violation(k, w, rep) for k, w, rep in hv]
     kinds = {}
     for label, _, _ in cs:
         kinds[label.split(":")[0]] = kinds.get(label.split(":")[0], 0) + 1
     cov = {
-        "evaluations": len(cs) + 2,
+        "evaluations": len(cs) + 2 + nh,
+        "load_histories": nh,
         "distinct_nontrivial": len({c for _, c, _ in cs}),
         "by_kind": kinds,
-        "rule": "every byte prefix of three valid files (native, non-ASCII UTF-8, legacy pymysensors); every JSON path of those documents with the value replaced by each of 15 values / key deleted / renamed / unknown key added; every JSON value of a small grammar (depth 3) as whole document, node record and children map; raw undecodable bytes; OSError at open/read/close. Each content is loaded by the real Persistence.load through real aiofiles on the virtual loop. distinct_nontrivial = number of distinct file contents",
+        "rule": "every byte prefix of three valid files (native, non-ASCII UTF-8, legacy pymysensors); every JSON path of those documents with the value replaced by each of 15 values / key deleted / renamed / unknown key added; every JSON value of a small grammar (depth 3) as whole document, node record and children map; raw undecodable bytes; OSError at open/read/close. Each content is loaded by the real Persistence.load through real aiofiles on the virtual loop; plus every sequence of 3 loads from 7 files by one Persistence object into a registry that is empty or already holds nodes. distinct_nontrivial = number of distinct file contents",
         "exhaustive": True,
         "bounds": {"grammar_values": len(grammar(ctx.quick))},
         "samples": [cs[ctx.seed % len(cs)][0], cs[len(cs) // 2][0], cs[-20][0]],
@@ -214,7 +253,9 @@ def run(ctx: core.Ctx) -> core.Report:
 
 
 def replay(data: dict) -> dict:
-    if data.get("content_hex") is None and data.get("label") in ("missing", "empty"):
+    if data.get("label") == "history":
+        _, v = load_histories()
+    elif data.get("content_hex") is None and data.get("label") in ("missing", "empty"):
         v = special_cases()
     else:
         content = bytes.fromhex(data["content_hex"]) if data.get("content_hex") is not None else None
